@@ -91,11 +91,14 @@ def cases(shard):
             yield {'t': t}
 
 
-def _roundtrip(ctx, pm, rm, name, g, top, want, label):
+def _roundtrip(ctx, pm, rm, name, g, top, want, label, implicit=False):
     import penman
     try:
         pm.errors(g)        # a client may validate a graph before writing it (a pure call: must not matter)
-        s = penman.encode(g, top=top, model=pm, indent=None)
+        if implicit:        # no top requested and none stored: the top is the source of the first triple
+            s = penman.encode(g, model=pm, indent=None)
+        else:
+            s = penman.encode(g, top=top, model=pm, indent=None)
     except Exception as e:      # noqa: BLE001
         ctx.fail(f'{label}: encode raised {type(e).__name__} under {name}', observed=str(e)[:200], expected='text')
         return False
@@ -126,6 +129,9 @@ def check(case, ctx):
             want = RI.content(triples, top, rm)
             if not _roundtrip(ctx, pm, rm, name, Graph(triples), top, want, 'plain'):
                 return
+            if triples and triples[0][0] == top and name == case['models'][0]:
+                if not _roundtrip(ctx, pm, rm, name, Graph(triples), top, want, 'plain, implicit top', implicit=True):
+                    return
         if len(triples) > sum(1 for t in triples if t[1] == ':instance'):
             ctx.nontrivial += 1
         ctx.outcome(repr(want['triples']))
